@@ -58,10 +58,11 @@ func c04Tol(R, y, e *big.Float, feeDiv *big.Float) *big.Float {
 }
 
 type c04Bal struct {
-	pool   balancer.Pool
-	fee    osmomath.Dec
-	denoms []string
-	exact  bool // exact sub-family (weight ratios 1 or 2, reserves <= 1e16)
+	pool    balancer.Pool
+	fee     osmomath.Dec
+	exitFee osmomath.Dec
+	denoms  []string
+	exact   bool // exact sub-family (weight ratios 1 or 2, reserves <= 1e16)
 }
 
 func (b *c04Bal) asset(d string) balancer.PoolAsset {
@@ -116,11 +117,16 @@ func c04NewBalancer(r *vk.Rng, id uint64) (*c04Bal, error) {
 		assets = append(assets, balancer.PoolAsset{Weight: sdkmath.NewInt(w), Token: sdk.NewCoin(c04Denoms[i], sdkmath.NewIntFromBigInt(amt))})
 	}
 	fee := c04Fee(r)
-	p, err := balancer.NewBalancerPool(id, balancer.NewPoolParams(fee, osmomath.ZeroDec(), nil), assets, "", time.Unix(1700000000, 0))
+	// legacy pools carry an exit fee (new ones must have none; the model accepts any value below one)
+	exitFee := osmomath.ZeroDec()
+	if r.Intn(5) == 0 {
+		exitFee = osmomath.MustNewDecFromStr([]string{"0.001", "0.01", "0.1", "0.5"}[r.Intn(4)])
+	}
+	p, err := balancer.NewBalancerPool(id, balancer.NewPoolParams(fee, exitFee, nil), assets, "", time.Unix(1700000000, 0))
 	if err != nil {
 		return nil, err
 	}
-	return &c04Bal{pool: p, fee: fee, denoms: c04Denoms[:n], exact: exact}, nil
+	return &c04Bal{pool: p, fee: fee, exitFee: exitFee, denoms: c04Denoms[:n], exact: exact}, nil
 }
 
 func c04Amount(r *vk.Rng, reserve sdkmath.Int) sdkmath.Int {
@@ -168,7 +174,7 @@ func isDocumentedRejection(rec any, err error) bool {
 }
 
 func runC04(c *vk.Ctx) {
-	c.R.Rule = "cases = short operation sequences (<= 6 ops) on one in-memory balancer pool (2..8 assets, weights 1..2^20, reserves 1..1e30 incl. strongly unbalanced, fees 0..0.5; a quarter from the exact sub-family: weight ratios 1 or 2 and reserves <= 1e16) or stableswap pool (2..8 assets, scaling factors 1..1e6): swap exact-in/out, single-asset join, exact-shares join, proportional join/exit, single-asset exit. Each result is compared with the exact formula (two-sided, tolerance = reserve·power-precision as documented), the value-per-share invariant before/after, proportional bounds exactly, stableswap invariant exactly, and closed loops in the exact sub-family. Documented rejections are outcomes. distinct_nontrivial counts distinct (pool type, op, #assets bucket, fee, trade-size class, exact-family?, outcome) tuples."
+	c.R.Rule = "cases = short operation sequences (<= 6 ops) on one in-memory balancer pool (2..8 assets, weights 1..2^20, reserves 1..1e30 incl. strongly unbalanced, fees 0..0.5, one pool in five with a legacy exit fee 0.001..0.5; a quarter from the exact sub-family: weight ratios 1 or 2 and reserves <= 1e16) or stableswap pool (2..8 assets, scaling factors 1..1e6): swap exact-in/out, single-asset join, exact-shares join, proportional join/exit, single-asset exit. Each result is compared with the exact formula (two-sided, tolerance = reserve·power-precision as documented), the value-per-share invariant before/after, proportional bounds exactly, stableswap invariant exactly, and closed loops in the exact sub-family. Documented rejections are outcomes. distinct_nontrivial counts distinct (pool type, op, #assets bucket, fee, trade-size class, exact-family?, outcome) tuples."
 	_, ctx := vk.NewMemCtx("gamm")
 	c.Cases("balancer", c.N(30000, 1500000), func(i int, r *vk.Rng) {
 		b, err := c04NewBalancer(r, uint64(1+i%1000))
@@ -327,16 +333,18 @@ func runC04(c *vk.Ctx) {
 					sizeCls = c04Size(sh, S)
 					c.Logf("ExitPool(%s of %s)", sh, S)
 					liqBefore := b.pool.GetTotalPoolLiquidity(ctx)
-					coins, e := b.pool.ExitPool(ctx, sh, osmomath.ZeroDec())
+					coins, e := b.pool.ExitPool(ctx, sh, b.exitFee)
 					if e != nil {
 						err = e
 						return
 					}
+					keep := new(big.Rat).Sub(big.NewRat(1, 1), new(big.Rat).SetFrac(b.exitFee.BigInt(), big.NewInt(1e18)))
 					for _, cn := range liqBefore {
 						lim := new(big.Rat).Mul(new(big.Rat).SetFrac(sh.BigInt(), S.BigInt()), new(big.Rat).SetInt(cn.Amount.BigInt()))
+						lim.Mul(lim, keep)
 						got := new(big.Rat).SetInt(coins.AmountOf(cn.Denom).BigInt())
 						if got.Cmp(lim) > 0 {
-							c.Violate("C04.proportional_exit", sig, "exit of %s/%s shares paid %s%s > B·s/S = %s", sh, S, coins.AmountOf(cn.Denom), cn.Denom, lim.FloatString(6))
+							c.Violate("C04.proportional_exit", sig, "exit of %s/%s shares (exit fee %s) paid %s%s > B·s·(1−exit fee)/S = %s", sh, S, b.exitFee, coins.AmountOf(cn.Denom), cn.Denom, lim.FloatString(6))
 							outcome = "bad"
 							return
 						}
@@ -354,22 +362,35 @@ func runC04(c *vk.Ctx) {
 					sizeCls = c04Size(amt, aout.Token.Amount)
 					c.Logf("ExitSwapExactAmountOut(%s%s) reserve=%s w=%s/%s S=%s fee=%s", amt, aout.Token.Denom, aout.Token.Amount, aout.Weight, W, S, b.fee)
 					sh, e := b.pool.ExitSwapExactAmountOut(ctx, sdk.NewCoin(aout.Token.Denom, amt), S)
-					if e != nil {
-						err = e
-						return
-					}
 					nw := bfNew().Quo(bfI(aout.Weight), bfI(W))
 					feeRatio := bfNew().Sub(bf(1), bfNew().Mul(bfNew().Sub(bf(1), nw), bfDec(b.fee)))
 					outFee := bfNew().Quo(bfI(amt), feeRatio)
 					y := bfNew().Quo(bfNew().Sub(bfI(aout.Token.Amount), outFee), bfI(aout.Token.Amount))
+					if e != nil {
+						// with an exit fee the shares needed can exceed all shares there are: refused, as documented
+						if y.Sign() > 0 && !b.exitFee.IsZero() && strings.Contains(e.Error(), "larger than the max amount") {
+							need := bfNew().Mul(bfI(S), bfNew().Sub(bf(1), bfPow(y, nw)))
+							need.Quo(need, bfNew().Sub(bf(1), bfDec(b.exitFee)))
+							if need.Cmp(bfNew().Sub(bfI(S), c04Tol(bfI(S), y, nw, nil))) >= 0 {
+								outcome = "rejected-needs-all-shares"
+								return
+							}
+						}
+						err = e
+						return
+					}
 					if y.Sign() <= 0 {
 						outcome = "skip"
 						return
 					}
 					exactSh := bfNew().Mul(bfI(S), bfNew().Sub(bf(1), bfPow(y, nw)))
-					c.Logf("  -> shares burned %s, exact %s", sh, exactSh.Text('f', 6))
+					// the exit fee is charged on the share side: shares in = shares for the tokens / (1 − exit fee)
+					keepF := bfNew().Sub(bf(1), bfDec(b.exitFee))
+					exactSh.Quo(exactSh, keepF)
+					c.Logf("  -> shares burned %s, exact %s (exit fee %s)", sh, exactSh.Text('f', 6), b.exitFee)
 					sig["pow_base_below_half"] = y.Cmp(bf(0.5)) < 0
-					outcome = c04Compare(c, sig, "shares-in", bfI(sh), exactSh, c04Tol(bfI(S), y, nw, nil), true, false, nil)
+					sig["exit_fee"] = !b.exitFee.IsZero()
+					outcome = c04Compare(c, sig, "shares-in", bfI(sh), exactSh, c04Tol(bfI(S), y, nw, keepF), true, false, nil)
 				case 8: // all assets in arbitrary (uneven) amounts: proportional part plus single-asset joins of the rest
 					var coins sdk.Coins
 					for _, a := range b.pool.GetAllPoolAssets() {
